@@ -149,6 +149,9 @@ pub trait QueryBuilder: ValueRenderer {
         ensures forall|t: Seq<Op>, c: Cfg| #[trigger] old(sql).rel(t, c) ==> final(sql).rel(delete_ops(self.spec_id(), *s, t), c);
     fn prepare_with_query<W: SqlWriter>(&self, s: &WithQuery, sql: &mut W)
         ensures forall|t: Seq<Op>, c: Cfg| #[trigger] old(sql).rel(t, c) ==> final(sql).rel(with_ops(self.spec_id(), *s, t), c);
+    // expression renderer: abstract here (its arms are the subject of units prec / custom / cond); a function of (expr, backend)
+    fn prepare_simple_expr<W: SqlWriter>(&self, simple_expr: &SimpleExpr, sql: &mut W)
+        ensures forall|t: Seq<Op>, c: Cfg| #[trigger] old(sql).rel(t, c) ==> final(sql).rel(expr_ops(self.spec_id(), *simple_expr, t), c);
     // every backend's prepare_value is one push_param of (a copy of) the value
     fn prepare_value<W: SqlWriter>(&self, value: &Value, sql: &mut W)
         ensures forall|t: Seq<Op>, c: Cfg| #[trigger] old(sql).rel(t, c) ==> final(sql).rel(t.push(Op::Param(*value, self.vts(*value))), c);
@@ -174,4 +177,28 @@ fn vfmt_lit<W: SqlWriter>(w: &mut W, x: &str)
     let ghost o = *w;
     w.vpush(x);
     proof { assert forall|t: Seq<Op>, c: Cfg| #[trigger] o.rel(t, c) implies w.rel(t.push(Op::Text(x@)), c) by { W::lemma_text(&o, w, t, c, x@); } }
+}
+
+fn vfmt_disp<W: SqlWriter, T: VDisp>(w: &mut W, x: T)
+    ensures forall|t: Seq<Op>, c: Cfg| #[trigger] old(w).rel(t, c) ==> final(w).rel(t.push(Op::Text(x.disp())), c),
+            final(w).text() == old(w).text() + x.disp(), final(w).aux() == old(w).aux(),
+{
+    let ghost o = *w;
+    let s = x.vdisp();
+    w.vpush(s.as_str());
+    proof { assert forall|t: Seq<Op>, c: Cfg| #[trigger] o.rel(t, c) implies w.rel(t.push(Op::Text(x.disp())), c) by { W::lemma_text(&o, w, t, c, x.disp()); } }
+}
+
+// ---- ORDER BY FIELD(..) emulation: CASE WHEN <expr>=<literal> THEN k .. ELSE n END --------------------------------
+// The values of the list are INLINE literals in both rendering modes (no parameter is pushed): C03 requires each to be
+// the backend's own literal `vts(v)` (whose shape is verified in unit `escape`), C01 that no value is bound for them.
+pub open spec fn field_order_ops<QB: QueryBuilder>(qb: &QB, e: SimpleExpr, vs: Seq<Value>, k: nat, t: Seq<Op>) -> Seq<Op>
+    decreases k
+{
+    if k == 0 { t.push(Op::Text("CASE "@)) }
+    else {
+        expr_ops(qb.spec_id(), e, field_order_ops(qb, e, vs, (k - 1) as nat, t).push(Op::Text("WHEN "@)))
+            .push(Op::Text("="@)).push(Op::Text(qb.vts(vs[k - 1])))
+            .push(Op::Text(" THEN "@)).push(Op::Text(num_text_int(k - 1))).push(Op::Text(" "@))
+    }
 }
